@@ -104,7 +104,7 @@ def dump_bodies(dump, main_text):
 def main(tier):
     run = Run("C08", tier, module="DS.Props.C08", props_file="DS/Props/C08.lean",
               extra_files=["DS/Model/Verify.lean", "DS/Model/VerifyRun.lean", "DS/Model/VMRun.lean", "DS/Proofs/VerifyLemmas.lean",
-                           "DS/Proofs/ExecSkelBase.lean", "DS/Proofs/ExecSkel.lean"])
+                           "DS/Proofs/ExecSkelBase.lean", "DS/Proofs/ExecSkel.lean", "DS/Proofs/Room.lean"])
     if run.prepare():
         run.proofs()
         r = run.rng
